@@ -162,7 +162,7 @@ func c09GenSection(r *core.Rand) *ref.Section {
 	n := r.Pick(0, 1, 1, 2, 3)
 	foreign := r.Chance(1, 3)
 	for i := 0; i < n; i++ {
-		if foreign && r.Chance(1, 2) {
+		for k := 0; foreign && k < 3 && r.Chance(1, 2); k++ { // runs of foreign descriptors too
 			s.Items = append(s.Items, ref.SpliceItem{Foreign: c09Foreign(r)})
 		}
 		d := c09GenSeg(r)
